@@ -193,6 +193,33 @@ def build (cfg : Cfg) : Option BuildErr :=
     if !sortable (succOf es) (nodes cfg) then some .cycle
     else none
 
+/-! ## content of the cycle error
+
+`cycleErr` prints one cycle found by gonum (`topo.DirectedCyclesIn`), rotated to start at a connector, listing
+the processors and connectors on it (capabilities / fan-out nodes skipped) and repeating the first node at the
+end.  Which cycle gonum reports is not modelled; what is checked (monitor `cycleMsgOk`, sound by
+`C09_cycle_message_sound`) is that the printed sequence really is a closed walk of the built graph. -/
+
+def expandNC (E : List (Node × Node)) (l : List Node) : List Node :=
+  l.flatMap (fun n => if n.isComp then [n] else succOf E n)
+
+/-- the components directly after `b`, looking through capabilities / fan-out nodes -/
+def compNext (E : List (Node × Node)) (b : Node) : List Node :=
+  (expandNC E (expandNC E (succOf E b))).filter Node.isComp
+
+def linkedChain (E : List (Node × Node)) : Node → List Node → Bool
+  | _, [] => true
+  | a, b :: l => decide (b ∈ compNext E a) && linkedChain E b l
+
+def isConnNode : Node → Bool
+  | .conn _ _ _ => true
+  | _ => false
+
+/-- the printed cycle `n₀ → n₁ → … → n₀`: starts at a connector, returns to it, every step is a link of the graph -/
+def cycleMsgOk (cfg : Cfg) : List Node → Bool
+  | [] => false
+  | n :: rest => isConnNode n && !rest.isEmpty && (rest.getLast? == some n) && linkedChain (edges cfg) n rest
+
 /-! ## data flow through the built consumers
 
 Every consumer hands the payload to each of its next consumers once (receiver: `fanoutconsumer` over its
